@@ -143,23 +143,23 @@ func buildE2(w *World) *e2env {
 					fixed(fmt.Sprintf("h%d v%d proposal from non-primary %d", h, v, wp), mk(dbft.PrepareRequestType, wp, &prepReq{ts: ts, nonce: 0xC0, txs: txFor('A', v)}))
 				}
 			}
-			blockOf := func(p *Payload, own bool) func(w *World) (H, bool) {
-				return func(w *World) (H, bool) {
+			blockOf := func(p *Payload, own bool) func(w *World) ([2]H, bool) {
+				return func(w *World) ([2]H, bool) {
 					xn := w.e2X()
 					if xn.height+1 != h {
-						return 0, false
+						return [2]H{}, false
 					}
 					var r *prepReq
 					if own {
 						q, ok := ownProposal(w, h, v)
 						if !ok {
-							return 0, false
+							return [2]H{}, false
 						}
 						r = q.body.(*prepReq)
 					} else {
 						r = p.body.(*prepReq)
 					}
-					return blockHash(h, xn.tip, r.ts, r.nonce, r.txs), true
+					return [2]H{blockHash(h, xn.tip, r.ts, r.nonce, r.txs), preDataHash(h, xn.tip, r.ts, r.nonce, r.txs)}, true
 				}
 			}
 			for pi, i := range peers {
@@ -198,12 +198,13 @@ func buildE2(w *World) *e2env {
 							}
 							bf := blockOf(p, false)
 							add(fmt.Sprintf("h%d v%d %s valid for %c from %d", h, v, label, k, i), func(w *World) *Payload {
-								bh, ok := bf(w)
+								hs, ok := bf(w)
 								if !ok {
 									return nil
 								}
+								bh := hs[0]
 								if kind == 'P' {
-									bh ^= 0x5050505050505050
+									bh = hs[1]
 								}
 								return mk(t, i, body(mkSig(kind, vals[i], bh)))
 							})
@@ -215,12 +216,13 @@ func buildE2(w *World) *e2env {
 							}
 							bf := blockOf(nil, true)
 							add(fmt.Sprintf("h%d v%d %s valid for X's own proposal from %d", h, v, label, i), func(w *World) *Payload {
-								bh, ok := bf(w)
+								hs, ok := bf(w)
 								if !ok {
 									return nil
 								}
+								bh := hs[0]
 								if kind == 'P' {
-									bh ^= 0x5050505050505050
+									bh = hs[1]
 								}
 								return mk(t, i, body(mkSig(kind, vals[i], bh)))
 							})
@@ -268,10 +270,11 @@ func buildE2(w *World) *e2env {
 					fixed(fmt.Sprintf("h%d v%d recovery bundle: proposal A + responses", h, v), mk(dbft.RecoveryMessageType, sender, rm))
 					bf := blockOf(p, false)
 					add(fmt.Sprintf("h%d v%d recovery bundle: proposal A + responses + commits", h, v), func(w *World) *Payload {
-						bh, ok := bf(w)
+						hs, ok := bf(w)
 						if !ok {
 							return nil
 						}
+						bh, ph := hs[0], hs[1]
 						r2 := &recMsg{}
 						r2.AddPayload(p)
 						for _, i := range peers {
@@ -281,7 +284,7 @@ func buildE2(w *World) *e2env {
 						}
 						for _, i := range peers {
 							if amev {
-								r2.AddPayload(mk(dbft.PreCommitType, i, &preCommitBody{mkSig('P', vals[i], bh^0x5050505050505050)}))
+								r2.AddPayload(mk(dbft.PreCommitType, i, &preCommitBody{mkSig('P', vals[i], ph)}))
 							}
 							r2.AddPayload(mk(dbft.CommitType, i, &commitBody{mkSig('B', vals[i], bh)}))
 						}
